@@ -24,7 +24,7 @@ pub enum TransformSpec {
 }
 
 impl TransformSpec {
-    fn to_verif(&self) -> VerifTransform {
+    pub fn to_verif(&self) -> VerifTransform {
         match self {
             TransformSpec::Diag { stds, mean } => VerifTransform::Diag { stds: stds.clone(), mean: mean.clone() },
             TransformSpec::LowRank { stds, mean, vals, vecs, mu } => VerifTransform::LowRank { stds: stds.clone(), mean: mean.clone(), vals: vals.clone(), vecs: vecs.clone(), mu: mu.clone() },
